@@ -1132,6 +1132,8 @@ def real_twin_of(rng, case):
     c['powers_dB'] = [off - rng.randint(0, 30) / 2.0 for _ in case['delays']]
     if rng.chance(0.15):
         c['powers_dB'][rng.below(len(c['powers_dB']))] = off    # R5: 0 dB relative tap
+    if any(Fraction(a) ** 2 < Fraction(1, 10 ** 8) for a in case['amps']) and len(case['amps']) >= 2:
+        c['powers_dB'] = [off + 20.0 * math.log10(float(Fraction(a))) for a in case['amps']]   # R15: down to -150 dB
     c['prediscretized'] = rng.chance(0.5)
     c['ctor'] = rng.choice(['profile', 'profile+Ts', 'arrays'])     # any form: the reported response is the reference
     return c
